@@ -27,6 +27,20 @@ SOURCES = [((12, 13, 150), 16, (4, 4, -1), 2), ((17, 18, 40), 32, (8, 8, 16), 1)
            ((70, 66, 9), 2, (64, 64, 4), 1), ((8, 9, 150), 16, (4, 4, -1), 1, 1.001), ((8, 16, 300), 8, (4, 4, -1), 2), ((5, 6, 2100), 1, (4, 4, -1), 1)]
 
 
+def make_dup_source(d, k, seed):
+    """SEG-Y converted with the default detection, several header words duplicating one another (they share one stored array)"""
+    shape = (9, 10, 70)
+    cube = inputs.cube(shape, seed + k)
+    t = np.arange(shape[0] * shape[1]).reshape(shape[0], shape[1])
+    sgy = os.path.join(d, f'dup{k}.sgy')
+    inputs.write_segy(sgy, cube, 100 + 2 * np.arange(shape[0]), -7 + 3 * np.arange(shape[1]), 8.0 + 4.0 * np.arange(shape[2]),
+                      headers={segyio.TraceField.TRACE_SEQUENCE_LINE: t + 1, segyio.TraceField.CDP: 5 * t + 2, segyio.TraceField.CDP_TRACE: 5 * t + 2,
+                               segyio.TraceField.ShotPoint: 1000 - t})
+    p = os.path.join(d, f'dup{k}.sgz')
+    writers.segy_to_sgz(sgy, p, 32, (4, 4, -1), header_detection='heuristic')
+    return p
+
+
 def make_source(d, k, spec, seed):
     shape, rate, bs, extra = spec[:4]
     dz = spec[4] if len(spec) > 4 else 4.0
@@ -91,6 +105,10 @@ def _worker(item):
     try:
         with env.quiet():
             with SgzCropper(S['path']) as c:
+                if ci % 3 == 0 and c.stored_header_keys:      # a cropper that has already served reads (header words out of table order)
+                    c.get_tracefield_values(c.stored_header_keys[-1])
+                    c.gen_trace_header(1)
+                    c.read_inline(0)
                 if mode == 'index':
                     c.write_cropped_file_by_indexes(out_p, *box)
                 else:
@@ -191,8 +209,12 @@ def prepare(run):
     quick = run.tier == 'quick'
     specs = SOURCES[:6] if quick else SOURCES
     S = []
-    for k, spec in enumerate(specs):
-        p = make_source(d, k, spec, run.seed)
+    for k, spec in enumerate(specs + ['dup']):
+        if spec == 'dup':
+            p = make_dup_source(d, k, run.seed)
+            spec = ((9, 10, 70), 32, (4, 4, -1), 'dup')
+        else:
+            p = make_source(d, k, spec, run.seed)
         fc = session.FileCase(p)
         with open(p, 'rb') as f:
             raw = f.read()
@@ -200,7 +222,7 @@ def prepare(run):
         shape, rate, bs, extra = spec[:4]
         dz_us = int(round(1000 * (spec[4] if len(spec) > 4 else 4.0)))
         S.append({'path': p, 'label': f'numpy{shape}r{rate}b{bs}h{extra}', 'F': fc.F, 'snap': _snapshot(p), 'data': raw[8192:8192 + H['data_blocks'] * 4096],
-                  'T': c03.truth(3, shape, fc.F['b'], rate, shape[0] * shape[1], (100, 2), (-7, 3), 8, dz_us, source_format=20)})
+                  'T': c03.truth(3, shape, fc.F['b'], rate, shape[0] * shape[1], (100, 2), (-7, 3), 8, dz_us, source_format=20 if extra != 'dup' else 0)})
     return S
 
 
